@@ -171,12 +171,12 @@ func VerifParse(symbolTypes SymbolTypes, query string) (Query, error) {
 			}
 		}
 		if !verifrt.IsConcrete(query) {
-			verifrt.Outside("data-dependent query string that matches no registered template")
+			verifrt.Unsupported("data-dependent query string that matches no registered template")
 		}
 	}
 	events, perr, ok := verifTraceFor(query)
 	if !ok {
-		verifrt.Outside("query string without a recorded parse trace: " + query)
+		verifrt.Unsupported("query string without a recorded parse trace: " + query)
 	}
 	if perr != "" {
 		return nil, errors.New(perr)
@@ -191,7 +191,7 @@ func VerifParse(symbolTypes SymbolTypes, query string) (Query, error) {
 func VerifParseTemplate(symbolTypes SymbolTypes, template string, body string) (Query, error) {
 	events, perr, ok := verifTraceFor(template)
 	if !ok {
-		verifrt.Outside("template without a recorded parse trace: " + template)
+		verifrt.Unsupported("template without a recorded parse trace: " + template)
 	}
 	if perr != "" {
 		return nil, errors.New(perr)
